@@ -251,8 +251,16 @@ def run_expr(shard: dict, res: Res) -> None:
         m = rng.choice(mns)
         suffix = rng.choice(SUFFIXES)
         text = rx.render(tokens, lambda k: rng.choice(["", " "]))
+        extra = ""
+        if rng.random() < 0.15:
+            # the operand is a name whose value while labels are resolved (:=) differs from its final value (=):
+            # either rejected or encoded with the width of the value that is emitted
+            first = rng.choice([0x10, 0xFF, 0x100, 0xFFFF, 0x10000])
+            extra = f"zlate := {first}\nzlate = {text}\n"
+            text = "zlate"
+            res.count("late_symbol_cases")
         stmt = render(m, shape, suffix, text, "lower")
-        src = "*=0x008000\n" + PRELUDE + stmt + "\n"
+        src = "*=0x008000\n" + PRELUDE + extra + stmt + "\n"
         res.hashes.add(__import__("vf.core.result", fromlist=["h64"]).h64(src))
         judge(res, supported, m, shape, suffix, v, stmt, src, None, False)
         res.count("expr_cases")
